@@ -24,9 +24,10 @@ Shapes0 == {
 \* entries without details that carry their own included charge: a payment with a fee, and a pure fee
 Shapes == {[amt |-> s.amt, details |-> s.details, charge |-> DZero] : s \in Shapes0}
           \cup {[amt |-> D(1050, 2), details |-> <<>>, charge |-> D(50, 2)], [amt |-> D(500, 2), details |-> <<>>, charge |-> D(500, 2)]}
-Entries == {[cd |-> cd, amt |-> s.amt, vday |-> v, bday |-> b, details |-> s.details, charge |-> s.charge] :
-              cd \in {"CRDT", "DBIT"}, s \in Shapes, v \in {2, 3}, b \in {3}}
-Usable(e) == /\ \A j \in 1..Len(e.details) : (e.details[j].charge # DZero => e.cd = "DBIT")
+Entries == {[cd |-> cd, amt |-> s.amt, vday |-> v, bday |-> b, details |-> s.details, charge |-> s.charge, sameref |-> sr] :
+              cd \in {"CRDT", "DBIT"}, s \in Shapes, v \in {2, 3}, b \in {3}, sr \in BOOLEAN}
+Usable(e) == /\ (e.sameref => Len(e.details) >= 2)
+             /\ \A j \in 1..Len(e.details) : (e.details[j].charge # DZero => e.cd = "DBIT")
              /\ (e.charge # DZero => e.cd = "DBIT")
 
 MCInit == /\ opening \in {DZero, D(100000, 2), D(-5000, 2)}
